@@ -137,7 +137,8 @@ func (m *valueMaker) leaf(kind string, vc string) reflect.Value {
 	v := reflect.New(rt).Elem()
 	switch kind {
 	case "bool":
-		v.SetBool(m.next()%2 == 0)
+		m.next()
+		v.SetBool(m.rnd.Intn(2) == 0)
 	case "int8", "int16", "int32", "int64", "int":
 		v.SetInt(m.intIn(rt.Bits(), true))
 	case "uint8", "uint16", "uint32", "uint64", "uint":
@@ -159,7 +160,11 @@ func (m *valueMaker) leaf(kind string, vc string) reflect.Value {
 		case "long":
 			v.SetString(strings.Repeat("long string ", 3))
 		default:
-			v.SetString(stringSamples[m.next()%len(stringSamples)])
+			str := stringSamples[m.next()%len(stringSamples)]
+			if str == "" {
+				str = "non-empty"
+			}
+			v.SetString(str)
 		}
 	case "bytes":
 		n := vcCount(vc)
@@ -204,6 +209,34 @@ func (m *valueMaker) leaf(kind string, vc string) reflect.Value {
 	return v
 }
 
+// distinctKey: the j-th of a family of pairwise different keys of a keyable leaf kind
+func (m *valueMaker) distinctKey(kind string, j int) reflect.Value {
+	v := reflect.New(leafTypes[kind]).Elem()
+	switch kind {
+	case "bool":
+		v.SetBool(j%2 == 0)
+	case "int8":
+		v.SetInt(int64([]int{0, -1, 1, 127, -128, 100, -100, 101, 2, 3, 4, 5, 6, 7, 8, 9, 10, 11, 12, 13}[j%20]))
+	case "int64":
+		v.SetInt([]int64{0, -1, math.MaxInt64, math.MinInt64, 1 << 40, -256, 255, 65536}[j%8] + int64(j/8))
+	case "uint16":
+		v.SetUint(uint64([]int{0, 1, 255, 256, 65535, 100, 101}[j%7] + (j/7)*1000))
+	case "uint64":
+		v.SetUint([]uint64{0, 1, math.MaxUint64, 1 << 63, 1<<63 - 1, 1 << 32}[j%6] ^ uint64(j/6)<<8)
+	case "string":
+		v.SetString(fmt.Sprintf("%s#%d", stringSamples[(j*5+2)%len(stringSamples)], j))
+	case "uid":
+		var u types.UID
+		u[0], u[15] = byte(j), byte(j>>8)
+		v.Set(reflect.ValueOf(u))
+	case "ctime":
+		v.Set(reflect.ValueOf(compact_time.NewDate(2000+j, 1+j%12, 1+j%28)))
+	default:
+		panic("harness: not a key kind " + kind)
+	}
+	return v
+}
+
 func (m *valueMaker) value(t *typeTerm, vc string) reflect.Value {
 	rt := termType(t)
 	switch t.K {
@@ -223,8 +256,11 @@ func (m *valueMaker) value(t *typeTerm, vc string) reflect.Value {
 	case "map":
 		mp := reflect.MakeMap(rt)
 		n := vcCount(vc)
-		for tries := 0; mp.Len() < n && tries < 1000; tries++ {
-			mp.SetMapIndex(m.value(t.Key, "one"), m.value(t.E, "one"))
+		if t.Key.K == "bool" && n > 2 {
+			n = 2
+		}
+		for j := 0; mp.Len() < n; j++ {
+			mp.SetMapIndex(m.distinctKey(t.Key.K, j), m.value(t.E, "one"))
 		}
 		return mp
 	case "ptr":
